@@ -22,6 +22,8 @@ try:
 finally:
     subprocess.call(["git", "-C", "/repo", "worktree", "remove", "--force", wt])
 subprocess.check_call(["git", "-C", "/repo", "apply", patch])
+# evidence files describe runs against /repo itself: keep them, a run against a patched tree must not replace them
+saved = {p: open(f"/verif/evidence/{p}.json").read() for p in props if os.path.exists(f"/verif/evidence/{p}.json")}
 try:
     for p in props:
         r = subprocess.run(["./check", p], cwd="/verif", capture_output=True, text=True, timeout=3600)
@@ -30,6 +32,8 @@ try:
                             "first": [l for l in lines if l.startswith("VIOLATION")][:3], "summary": [l for l in lines if l.startswith("[")]}
 finally:
     subprocess.check_call(["git", "-C", "/repo", "checkout", "--", "."])
+    for p, text in saved.items():
+        open(f"/verif/evidence/{p}.json", "w").write(text)
 res["caught_by"] = [p for p, v in res["checks"].items() if v["exit"] == 1]
 json.dump(res, open(os.path.join(sd, "result.json"), "w"), indent=1)
 print(json.dumps({k: v for k, v in res.items() if k != "demo_with_patch_tail"}, indent=1)[:1500])
